@@ -3,25 +3,31 @@ namespace DrvPorts
 open Ports
 
 /-
-token grammar (prefix):
-  value : A <ty> <id> | D <n> (<key> value)*
+`pmodel ports` (C11): one case per line, one observation per line.
+
+token grammar (prefix, whitespace separated):
+  value : A <ty> <id> | D <n> (<key> value)* | F <n> (<key> value)*      (F: a frozen mapping)
   optv  : - | value
   optn  : - | <nat>
-  port  : L <req> <optn:type> <optv:default> <optn:validator>
+  port  : L <req> <optn:type> <optv:default> <callable> <optn:validator>
         | N <req> <optn:type> <optv:default> <dyn> <pop> <optn:validator> <n> (<name> port)*
-  line  : <top-dyn> <optn:top-type> <n> (<name> port)* RAW value
+  top   : <req> <dyn> <optn:type> <optn:validator> <n> (<name> port)*
+  line  : top RAW value
+observation: `define-err` | `ok <tree>` | `err TypeError` | `err ValueError <port path>`
+tree: atoms `A<ty>:<id>`, plain dicts `{k=v,...}`, frozen mappings `<k=v,...>`, keys sorted.
 -/
 
 partial def pValue : List String → Option (V × List String)
   | "A" :: t :: i :: rest => do some (.atom (← t.toNat?) (← i.toNat?), rest)
-  | "D" :: n :: rest => do
+  | d :: n :: rest => do
+      if d ≠ "D" ∧ d ≠ "F" then none
       let k ← n.toNat?
       let rec go : Nat → List String → List (String × V) → Option (List (String × V) × List String)
         | 0, r, acc => some (acc.reverse, r)
         | m+1, key :: r, acc => do let (v, r') ← pValue r; go m r' ((key, v) :: acc)
         | _, _, _ => none
       let (items, r) ← go k rest []
-      some (.dict items, r)
+      some (.dict (d == "F") items, r)
   | _ => none
 
 def pOptV : List String → Option (Option V × List String)
@@ -38,8 +44,8 @@ def pBool : List String → Option (Bool × List String)
 
 partial def pPort : List String → Option (Port × List String)
   | "L" :: rest => do
-      let (req, r) ← pBool rest; let (ty, r) ← pOptN r; let (d, r) ← pOptV r; let (vd, r) ← pOptN r
-      some (.leaf { required := req, validType := ty, default := d, validator := vd }, r)
+      let (req, r) ← pBool rest; let (ty, r) ← pOptN r; let (d, r) ← pOptV r; let (c, r) ← pBool r; let (vd, r) ← pOptN r
+      some (.leaf { required := req, validType := ty, default := d, callable := c, validator := vd }, r)
   | "N" :: rest => do
       let (req, r) ← pBool rest; let (ty, r) ← pOptN r; let (d, r) ← pOptV r
       let (dyn, r) ← pBool r; let (pop, r) ← pBool r; let (vd, r) ← pOptN r
@@ -57,37 +63,51 @@ where
         go k rest []
     | [] => none
 
+/-- the top-level namespace: attributes and ports -/
+def pTop (toks : List String) : Option (NsA × PortList × List String) := do
+  let (req, r) ← pBool toks; let (dyn, r) ← pBool r; let (ty, r) ← pOptN r; let (vd, r) ← pOptN r
+  let (ports, r) ← pPort.pPorts r
+  some ({ required := req, validType := ty, default := none, dynamic := dyn, populate := true, validator := vd }, ports, r)
+
 partial def showV : V → String
   | .atom t i => s!"A{t}:{i}"
-  | .dict items =>
+  | .dict fr items =>
       let sorted := items.toArray.qsort (fun a b => a.1 < b.1) |>.toList
-      "{" ++ ",".intercalate (sorted.map fun (k, v) => s!"{k}={showV v}") ++ "}"
+      (if fr then "<" else "{") ++ ",".intercalate (sorted.map fun (k, v) => s!"{k}={showV v}") ++ (if fr then ">" else "}")
+
+def theVd (n : Nat) (v : V) : Bool := v.mentions n
+
+def showErr : Err → String
+  | .typeError => "TypeError"
+  | .valueError => "ValueError"
+  | .attributeError => "AttributeError"
+  | .validation p => s!"ValueError {p}"
+
+def tokens (line : String) : List String := (line.trimAscii.toString.splitOn " ").filter (· ≠ "")
 
 def handle (line : String) : String :=
-  let toks := (line.trimAscii.toString.splitOn " ").filter (· ≠ "")
   match (do
-    let (dyn, r) ← pBool toks; let (ty, r) ← pOptN r
-    let (ports, r) ← pPort.pPorts r
+    let (top, ports, r) ← pTop (tokens line)
     match r with
     | "RAW" :: r' => do
         let (raw, r'') ← pValue r'
-        if r''.isEmpty then some (dyn, ty, ports, raw) else none
+        if r''.isEmpty then some (top, ports, raw) else none
     | _ => none) with
   | none => "bad"
-  | some (dyn, ty, ports, raw) =>
-      let top : NsA := { required := true, validType := ty, default := none, dynamic := dyn, populate := true, validator := none }
+  | some (top, ports, raw) =>
+      if !defineOk theVd ports then "define-err" else
       match raw with
-      | .dict items =>
-          match construct top ports items with
-          | .ok parsed => "ok " ++ showV (.dict parsed)
-          | .error _ => "err"
+      | .dict _ items =>
+          match construct theVd top ports items with
+          | .ok parsed => "ok " ++ showV parsed
+          | .error e => "err " ++ showErr e
       | _ => "bad"
 
-partial def loop (h : IO.FS.Stream) : IO Unit := do
+partial def loop (h : IO.FS.Stream) (f : String → String) : IO Unit := do
   let line ← h.getLine
   if line.isEmpty then return ()
-  IO.println (handle line)
-  loop h
+  IO.println (f line)
+  loop h f
 
-def main : IO Unit := do loop (← IO.getStdin)
+def main : IO Unit := do loop (← IO.getStdin) handle
 end DrvPorts
